@@ -311,7 +311,10 @@ def _c19_raises(n_workers, a0, a1, f0, f1, r0, r1):
     # terminates, every item offered to the callback once, items that did not raise before adding are in the result,
     # n_records counts only successful items
     contributing = [j for j in range(2) if RAISE[j] != 1]
-    return sorted(CALLBACK_LOG) == [0, 1] and _check_result(res, 2, n_workers, assign, ["cms"], contributing)
+    # the log worker must survive every record the run produced (ERROR records exist only when a callback raised): a dead
+    # log process stops draining the log pipe and every process that still logs blocks in put() -- parallel_add hangs
+    log_ok = all(p._exitcode == 0 for p in _sh.MP["procs"] if getattr(p.target, "__name__", "") == "_log_worker")
+    return sorted(CALLBACK_LOG) == [0, 1] and _check_result(res, 2, n_workers, assign, ["cms"], contributing) and log_ok
 
 
 def check_c19_callback_raises_w1(f0: int, f1: int, r0: int, r1: int) -> bool:
@@ -540,8 +543,43 @@ def real_items_generator(n_workers):
     return True, "generator accepted"
 
 
-def real_c19_callback_raises_w1(f0, f1, r0, r1): return _real_parallel(2, 1, [r0, r1], [f0, f1], ["cms"])
-def real_c19_callback_raises_w2(a0, a1, f0, f1, r0, r1): return _real_parallel(2, 2, [r0, r1], [f0, f1], ["cms"])
+def bulky_callback(item, *sketches):
+    """items are (index, blob): every log record that mentions an item is several hundred kB long"""
+    i = item[0]
+    if i == 0:
+        raise ValueError("boom")
+    for s in sketches:
+        s.add(b"k%d" % i)
+    return 1
+
+
+def _real_bulky():
+    """a failing callback followed by far more log text than a pipe buffer holds: parallel_add must still terminate"""
+    def run():
+        items = [(i, "x" * 400000) for i in range(12)]
+        try:
+            res = HELPERS.parallel_add(items, bulky_callback, n_workers=1, cms_args={"cms_type": "linear", "width": 64, "depth": 2})
+        except Exception as e:
+            return ("raised", type(e).__name__)
+        return ("returned", int(res.n_added()), int(res.n_records()))
+    st, out = _guarded(run, 150)
+    if st == "hang":
+        return False, "parallel_add HANGS: one worker, 12 items whose repr is 400 kB each, the callback raises on the first: no return within 150 s (the log process is gone and nobody drains the log pipe)"
+    if out[0] == "returned" and out[1] == 11 and out[2] == 11:
+        return True, "bulky items: terminated with the 11 successful items"
+    return False, f"bulky items: {out}"
+
+
+def _real_c19(n_items, n_workers, rets, fails):
+    ok, detail = _real_parallel(n_items, n_workers, rets, fails, ["cms"])
+    if ok and any(fails[:n_items]):
+        ok2, d2 = _real_bulky()
+        return ok2, detail + "; " + d2
+    return ok, detail
+
+
+def real_c19_callback_raises_w1(f0, f1, r0, r1): return _real_c19(2, 1, [r0, r1], [f0, f1])
+def real_c19_callback_raises_w2(a0, a1, f0, f1, r0, r1): return _real_c19(2, 2, [r0, r1], [f0, f1])
 
 
 def dying_callback(item, *sketches, code=1):
